@@ -8,6 +8,7 @@ import (
 	"verif/props/c03"
 	"verif/props/c09"
 	"verif/props/c10"
+	"verif/props/c18"
 )
 
 // Registry maps property ids to spec constructors.
@@ -18,5 +19,6 @@ func Registry() map[string]func() *mon.Spec {
 		"C03": c03.Spec,
 		"C09": c09.Spec,
 		"C10": c10.Spec,
+		"C18": c18.Spec,
 	}
 }
